@@ -16,7 +16,7 @@
     points [k]. *)
 From Coq Require Import String Ascii List Bool ZArith Arith.
 From Raven Require Import Base.GoStr Model.Store Model.Ops Model.Micro Spec.UidSpec Spec.Crash
-  Proof.StoreInv Proof.MicroRefine Proof.MicroBase Proof.MicroWF Proof.MicroCrash.
+  Proof.StoreInv Proof.MicroRefine Proof.MicroBase Proof.MicroWF Proof.MicroCrash Proof.MicroUid.
 Import ListNotations.
 Local Open Scope Z_scope.
 
@@ -72,6 +72,28 @@ Theorem c07_uid_gap_harmless : forall d msg mb fl m,
   mb_next (bump_row mb m) = mb_next m + 1.
 Proof. exact gap_state. Qed.
 Print Assumptions c07_uid_gap_harmless.
+
+(** ---- (d) the UID rules inside an operation (partial) ------------------------------- *)
+
+(** PARTIAL: C03 proves its invariant [Inv] (UIDs unique, ascending, UIDNEXT
+    above everything ever visible) at operation boundaries of clean histories;
+    here it is carried into the crash states inside the operations that have
+    more than one step touching mailboxes/links and are in C03's scope: after
+    the message rows, after "UPDATE uid_next" alone, after the link
+    (delivery, APPEND), and after any subset of an EXPUNGE's DELETEs.  Not
+    covered: a UID STORE interrupted between two messages, RENAME INBOX between
+    its two statements, CREATE/RENAME between parent INSERTs (outside C03's
+    hierarchy-free scope anyway). *)
+Theorem c07_uid_rules_inside_add_message_partial : forall s msg mb fl m,
+  Inv s -> find_id s mb = Some m ->
+  Inv (fst (store_message s)) /\ Inv (bump s mb) /\ Inv (fst (add_message s msg mb fl)).
+Proof. exact add_message_crash_states. Qed.
+Print Assumptions c07_uid_rules_inside_add_message_partial.
+
+Theorem c07_uid_rules_inside_expunge_partial : forall d ids k,
+  Inv (d_st d) -> Inv (d_st (run_steps d (firstn k (map MDelLink ids)))).
+Proof. exact expunge_crash_states. Qed.
+Print Assumptions c07_uid_rules_inside_expunge_partial.
 
 (** ---- (a)+(e) usable stores, logins and deliveries succeed again ------------------ *)
 
